@@ -16,7 +16,7 @@ use sycamore_reactive::*;
 
 // ---------------------------------------------------------------------------------- syntax
 
-#[derive(Debug)]
+#[derive(Debug, Clone)]
 enum Expr {
     Lit(i64),
     Get(u32),
@@ -32,7 +32,7 @@ enum Expr {
     CellGet(u32),
 }
 
-#[derive(Debug)]
+#[derive(Debug, Clone)]
 struct Body {
     on: Option<Vec<u32>>,
     ss: Rc<Vec<Stmt>>,
@@ -46,6 +46,8 @@ enum Stmt {
     Selector(u32, i64, Rc<Body>),
     Effect(u32, Rc<Body>),
     Scope(u32, Rc<Vec<Stmt>>),
+    /// provide_context_in_new_scope(value, || body); the new scope is registered under the given name
+    ProvideIn(u32, u32, Expr, Rc<Vec<Stmt>>),
     CurScope(u32),
     Set(u32, Expr),
     SetSilent(u32, Expr),
@@ -106,6 +108,7 @@ fn p_stmt(s: &Sx) -> Stmt {
         "selector" => Stmt::Selector(l[1].num(), l[2].num(), p_body(&l[3])),
         "effect" => Stmt::Effect(l[1].num(), p_body(&l[2])),
         "scope" => Stmt::Scope(l[1].num(), p_stmts(&l[2])),
+        "providein" => Stmt::ProvideIn(l[1].num(), l[2].num(), p_expr(&l[3]), p_stmts(&l[4])),
         "curscope" => Stmt::CurScope(l[1].num()),
         "set" => Stmt::Set(l[1].num(), p_expr(&l[2])),
         "setsilent" => Stmt::SetSilent(l[1].num(), p_expr(&l[2])),
@@ -285,16 +288,33 @@ fn run_body(name: u32, is_effect: bool, env: &Env, body: &Body) -> i64 {
     let v = match &body.on {
         None => with_spec_tracking(true, go),
         Some(deps) => {
-            // the real `on(deps, f)` takes a tuple of trackables; it tracks each and runs `f` untracked
-            for d in deps {
-                match lookup(env, *d) {
-                    Bind::Sig(s) => s.track(),
-                    Bind::Read(s) => s.track(),
+            // the real `on(deps, f)`: a tuple of trackables (1 to 4 here), each tracked, then `f` run untracked
+            let sigs: Vec<ReadSignal<i64>> = deps
+                .iter()
+                .map(|d| match lookup(env, *d) {
+                    Bind::Sig(s) => *s,
+                    Bind::Read(s) => s,
                     _ => panic!("ILL-FORMED: on() of a non-signal"),
-                }
+                })
+                .collect();
+            for d in deps {
                 log(format!("track {d} 1"));
             }
-            untrack(|| with_spec_tracking(false, go))
+            let (env2, body2) = (env.clone(), body.clone());
+            let f = move || {
+                with_spec_tracking(false, || {
+                    let env1 = exec(&env2, &body2.ss);
+                    eval(&env1, &body2.ret)
+                })
+            };
+            match sigs.as_slice() {
+                [] => untrack(f),
+                [a] => on(*a, f)(),
+                [a, b] => on((*a, *b), f)(),
+                [a, b, c] => on((*a, *b, *c), f)(),
+                [a, b, c, d] => on((*a, *b, *c, *d), f)(),
+                _ => panic!("ILL-FORMED: on() with more than 4 dependencies"),
+            }
         }
     };
     if is_effect {
@@ -370,6 +390,39 @@ fn exec1(env: &Env, s: &Stmt) -> Env {
                 register(x, Bind::Handle(use_current_scope()));
                 exec(&cenv, &ss);
             });
+            bind(env, x, Bind::Handle(h))
+        }
+        Stmt::ProvideIn(x, ty, e, ss) => {
+            let (ss, cenv) = (ss.clone(), env.clone());
+            let (x, ty) = (*x, *ty);
+            let v = eval(env, e);
+            let h = match ty {
+                0 => provide_context_in_new_scope(Ctx::<0>(v), move || {
+                    let h = use_current_scope();
+                    register(x, Bind::Handle(h));
+                    exec(&cenv, &ss);
+                    h
+                }),
+                1 => provide_context_in_new_scope(Ctx::<1>(v), move || {
+                    let h = use_current_scope();
+                    register(x, Bind::Handle(h));
+                    exec(&cenv, &ss);
+                    h
+                }),
+                2 => provide_context_in_new_scope(Ctx::<2>(v), move || {
+                    let h = use_current_scope();
+                    register(x, Bind::Handle(h));
+                    exec(&cenv, &ss);
+                    h
+                }),
+                3 => provide_context_in_new_scope(Ctx::<3>(v), move || {
+                    let h = use_current_scope();
+                    register(x, Bind::Handle(h));
+                    exec(&cenv, &ss);
+                    h
+                }),
+                _ => panic!("ILL-FORMED: context type"),
+            };
             bind(env, x, Bind::Handle(h))
         }
         Stmt::CurScope(x) => bind(env, *x, Bind::Handle(use_current_scope())),
